@@ -103,6 +103,12 @@ def abs_close(r, v, tolbits, p):
     return le(ab(sub(r, v)), pow2(tolbits - p))
 
 
+def rel0_close(r, v, tolbits, p):
+    """relative closeness; when the exact value is zero, |r| <= 2^(tolbits-p)"""
+    v = R(v)
+    return anyj(rel_close(r, v, tolbits, p), allj(eq(v, 0), abs_close(r, 0, tolbits, p)))
+
+
 def relabs_close(r, v, tolbits, p):
     return anyj(rel_close(r, v, tolbits, p), abs_close(r, v, tolbits, p))
 
